@@ -140,3 +140,21 @@ Proof.
   - rewrite <- (app_nil_r (encode_single d)). rewrite decode_single_encode by assumption. reflexivity.
   - reflexivity.
 Qed.
+
+(* ---------- streams compose: joining distributes over list append, and two accepted streams laid end to end split
+   into the two lists laid end to end (no item straddles the seam) ---------- *)
+
+Lemma encode_contents_app l1 l2 : encode_contents (l1 ++ l2) = encode_contents l1 ++ encode_contents l2.
+Proof. unfold encode_contents. rewrite map_app, concat_app. reflexivity. Qed.
+
+Lemma framed_app s1 l1 s2 l2 : framed s1 l1 -> framed s2 l2 -> framed (s1 ++ s2) (l1 ++ l2).
+Proof.
+  induction 1 as [|h c rest cs Hl Hh Hs F IH]; intros F2; [exact F2|].
+  cbn [app]. rewrite <- !app_assoc. constructor; try assumption. apply IH. exact F2.
+Qed.
+
+Theorem decode_contents_app s1 l1 s2 l2 :
+  decode_contents s1 = Ok l1 -> decode_contents s2 = Ok l2 -> decode_contents (s1 ++ s2) = Ok (l1 ++ l2).
+Proof.
+  intros H1 H2. apply framed_decodes. apply framed_app; apply decode_contents_image; assumption.
+Qed.
